@@ -316,7 +316,7 @@ def cases(draw, tier):
     return case
 
 
-WARM = ["root_inv_decomposition", "cholesky", "root_decomposition", "diagonalization", "solve", "inv_quad_logdet", "logdet", "to_dense"]
+WARM = ["root_inv_decomposition", "cholesky", "root_decomposition", "diagonalization", "diagonalization:lanczos", "diagonalization:lanczos:trunc", "solve", "inv_quad_logdet", "logdet", "to_dense"]
 
 
 def _warm(op, kind):
@@ -325,6 +325,12 @@ def _warm(op, kind):
         op.solve(torch.ones(*op.batch_shape, n, 1, dtype=op.dtype))
     elif kind == "inv_quad_logdet":
         op.inv_quad_logdet(torch.ones(*op.batch_shape, n, 1, dtype=op.dtype), logdet=True)
+    elif kind == "diagonalization:lanczos":
+        op.diagonalization(method="lanczos")
+    elif kind == "diagonalization:lanczos:trunc":
+        # an earlier query under another setting: a rank-limited Lanczos diagonalization stays in the cache
+        with linear_operator.settings.max_root_decomposition_size(max(1, n // 2)):
+            op.diagonalization(method="lanczos")
     else:
         getattr(op, kind)()
 
